@@ -14,12 +14,17 @@ Case line:  <op> <flavour> <args...>     (lists are length-prefixed)
       legs print `na`; the code and the model must still agree).
 """
 import itertools
+import zlib
 
 ID = "C06b"
 LEVEL = "proof"
 HARNESSES = [{"name": "main", "src": "harness.cpp", "flags": ["-O1", "-DTETL_ENABLE_CONTRACT_CHECKS=1"]},
              # another build mode (thorough tier): full optimisation, contract checks compiled out
-             {"name": "o2", "src": "harness.cpp", "flags": ["-O2"], "thorough_only": True}]
+             {"name": "o2", "src": "harness.cpp", "flags": ["-O2"], "thorough_only": True},
+             # the class-type predicate result (_t4) has ONLY an explicit operator bool: a use of a predicate result that is
+             # not a contextual conversion to bool (arithmetic, copy-initialisation of a bool, comparison with true) does not compile
+             {"name": "xbool", "src": "harness.cpp", "flags": ["-O1", "-DTETL_ENABLE_CONTRACT_CHECKS=1", "-DTRUTH_EXPLICIT"],
+              "thorough_only": True}]
 
 RULE = ("exhaustive: every sequence of length <= 5 over 3 keys (thorough: <= 6 over 4 keys, length 7 sampled; two-range "
         "operations: first range <= 6 over 3 keys), every "
@@ -29,6 +34,14 @@ RULE = ("exhaustive: every sequence of length <= 5 over 3 keys (thorough: <= 6 o
         "bidirectional, input(+output) (all flavours on every case for the category-dependent algorithms, on a "
         "deterministic quarter of the cases for the others); plus seeded random longer inputs; "
         "non-trivial = distinct case line whose impl outcome is ok")
+
+# operations that take a predicate or comparator (is_permutation has no predicate overload; the numeric operations take
+# value-returning callables)
+PRED_OPS = {"find_if", "find_if_not", "count_if", "all_of", "any_of", "none_of", "is_partitioned", "partition_point",
+            "adjacent_find", "search_n", "is_sorted", "is_sorted_until", "min_element", "max_element", "minmax_element",
+            "lower_bound", "upper_bound", "equal_range", "binary_search", "search", "search_ds", "find_end", "find_first_of",
+            "mismatch3", "mismatch4", "equal3", "equal4", "lexcmp", "includes", "merge", "set_union", "set_intersection",
+            "set_difference", "set_symmetric_difference", "min", "max", "minmax", "clamp"}
 
 TRUSTED_BASE = ["reference leg: libstdc++ 12 std:: algorithm of the same name on a copy of the input"]
 ASSUMPTIONS = ["element type int (numeric accumulators long long); values small enough that no arithmetic overflows"]
@@ -348,7 +361,17 @@ def gen(tier, rng):
         ss = sorted(s, key=lambda x: (x % 3 if c == 2 else (-x if c == 1 else x)))
         for op in SETOPS:
             out.append(f"{op} {f3} 1 {c} {L(sl)} {L(ss)}")
-    return out
+    # ---- fix-miss round 4: predicates / comparators whose result is NOT bool (op suffix _t1 int 2, _t2 int -1, _t3 int 4096,
+    # _t4 class type contextually convertible to bool) for every predicate- or comparator-taking operation: a deterministic
+    # eighth of all their case lines (every flavour, every predicate id), the kind chosen by the same hash
+    extra = []
+    for c in out:
+        op = c.split(" ", 1)[0]
+        if op in PRED_OPS:
+            h = zlib.crc32(c.encode())
+            if h % 8 == 0:
+                extra.append(f"{op}_t{1 + (h >> 8) % 4} {c.split(' ', 1)[1]}")
+    return out + extra
 
 
 def nontrivial(case, impl):
